@@ -24,7 +24,7 @@ GNext == /\ Len(hist) < MaxLen
             \/ \E n \in Names : IAlterRoot(n) /\ hist' = Append(hist, Act("alter", n, "-") @@ [v |-> AltVal(cur, n)])
 GSpec == GInit /\ [][GNext]_gvars
 
-SpSeq == <<"bare", "al", "fqA", "fqB", "loc", "var", "bind", "redef">>
+SpSeq == <<"bare", "al", "fqA", "fqB", "loc", "var", "bind", "redef", "fqp">>
 SetSeq(S) == IF Cardinality(S) = 1 THEN <<CHOOSE x \in S : TRUE>>
              ELSE LET a == CHOOSE x \in S : \A y \in S : x <= y IN <<a, CHOOSE x \in S : x # a>>
 Cell(n, sp, m) == [r |-> SetSeq(Req(n, sp, m)),
